@@ -112,11 +112,4 @@ example : (runSets 20 exTree [([.key ['a'], .key ['b'], .idx 1, .idx 0], .int 7)
     = .dict .n0 [(['a'], .dict .plain [(['b'], .list .plain [.int 1, .list .n0 [.int 7, .none]])]),
                  (['k'], .list .plain [])] := by decide
 
-/-- **finding C02-a (open)**: `d['a[0]'] = 'V'` on `{a: 1}` — lookup reads `a[0]` as `a` itself, but the assignment is
-stored into the temporary one-element list `_find` builds around the single value: nothing raises, nothing changes -/
-theorem C02_set_hidden_list_cex :
-    setItem 40 (.dict .n0 [(['a'], .int 1)]) ['a', '[', '0', ']'] (.str ['V']) = (.dict .n0 [(['a'], .int 1)], .ok ()) ∧
-    (getItem 40 (.dict .n0 [(['a'], .int 1)]) ['a', '[', '0', ']']).2 = .ok (.int 1) := by
-  decide
-
 end N0.C02
